@@ -160,6 +160,24 @@ def run_case(rng, idx, tier):
             viol.append({"key": dict(key0, kind="exception", exc=type(e).__name__, where="contact_forces"), "err": None, "msg": "contact_forces raised %s" % type(e).__name__})
     else:
         cs = surface(b1, b2, "pair(1,2)")
+        # the documented world-frame summary (contact_forces(..., return_details=True)): every polygon on its reported
+        # world-frame plane, every polygon inside the two world-frame tetrahedra it is reported for
+        if cs is not None and cs.intersection:
+            try:
+                fa = hydro.make_body(k1, p1, T1); fb = hydro.make_body(k2, p2, T2)
+                fa.youngs_modulus = E[0]; fb.youngs_modulus = E[1]
+                det = hc.contact_forces(fa, fb, return_details=True)[3]
+                polys = det["contact_polygons"]; planes = np.asarray(det["contact_planes"], float)
+                t1w = np.asarray(det["intersecting_tetrahedra1"], float); t2w = np.asarray(det["intersecting_tetrahedra2"], float)
+                Lw = max(1.0, float(np.abs(np.asarray(T2, float)[:3, 3]).max()))
+                for i, poly in enumerate(polys):
+                    kk = dict(key0, plane_through_frame_origin=bool(abs(np.asarray(cs.contact_planes[i], float)[3]) < 1e-12) if i < len(cs.contact_planes) else False,
+                              frame="world")
+                    judge_polygon(poly, planes[i], t1w[i], t2w[i], Lw, kk, viol, worst, "world-frame details polygon %d" % i)
+                    ev["world_frame_polygons"] = ev.get("world_frame_polygons", 0) + 1
+            except Exception as e:  # noqa: BLE001
+                viol.append({"key": dict(key0, kind="exception", exc=type(e).__name__, where="return_details"), "err": None,
+                             "msg": "contact_forces(return_details=True) raised %s: %s" % (type(e).__name__, str(e)[:160])})
         # history: a third body in changing roles, then the first pair again
         if cs is not None and idx % 2 == 0:
             k3 = str(rng.choice(hydro.BODIES)); p3 = hydro.body_params(rng, k3, 0.15)
